@@ -255,4 +255,89 @@ def runFifo (T : Topo) (oz : Zone) : Nat → Net → Net
   | 0, n => n
   | k + 1, n => if n.inflight.isEmpty then n else runFifo T oz k (deliver T oz n 0)
 
+/-! ### The real cluster event handlers (lib/icinga/clusterevents.cpp)
+
+    Every `event::X` that a node re-relays after processing it goes through two functions: the API handler
+    (`XAPIHandler(origin, params)`) applies the event through a setter / signal to which it hands `origin`, and the signal
+    handler (`XHandler(…, origin)`) calls `RelayMessage(origin, secobj, message, true)`.  What routing reads of that is
+    (a) whether the received `origin` arrives at `RelayMessage` and (b) which security object is named. -/
+
+/-- what the signal handler passes to `RelayMessage` as security object -/
+inductive SecObj
+  /-- the object the event is about (checkable, notification, comment, downtime): its zone decides -/
+  | object
+  /-- `nullptr`: the node's own zone and its parents -/
+  | none
+  deriving Repr, DecidableEq, Inhabited
+
+structure Handler where
+  /-- the method is `event::<method>` -/
+  method : String
+  /-- the API handler hands the received origin on and the signal handler relays with it -/
+  passesOrigin : Bool
+  sec : SecObj
+  /-- processing the event reaches the relaying signal handler at all -/
+  relays : Bool := true
+  deriving Repr, DecidableEq, Inhabited
+
+/-- the re-relaying handlers, in the order of clusterevents.cpp (API handler line → relaying line) -/
+def handlers : List Handler :=
+  [ ⟨"CheckResult", true, .object, true⟩,                     -- :181 ProcessCheckResult(cr, origin)        → :105
+    ⟨"SetNextCheck", true, .object, true⟩,                    -- :248 SetNextCheck(…, false, origin)        → :208
+    ⟨"SetLastCheckStarted", true, .object, true⟩,             -- :310                                       → :275
+    ⟨"SetStateBeforeSuppression", true, .none, true⟩,         -- :372                                       → :337
+    ⟨"SetSuppressedNotifications", true, .none, true⟩,        -- :434                                       → :399
+    ⟨"SetSuppressedNotificationTypes", true, .none, true⟩,    -- :480                                       → :455
+    -- :531 → :501 is dead: ClusterEvents connects to the hand-declared `Notification::OnNextNotificationChanged`
+    -- (notification.hpp:96), the setter emits the generated `ObjectImpl<Notification>::OnNextNotificationChanged`,
+    -- nothing emits the former: the event is applied and not passed on (F-C11c)
+    ⟨"SetNextNotification", true, .object, false⟩,
+    ⟨"UpdateLastNotifiedStatePerUser", true, .object, true⟩,  -- :589                                       → :554
+    ⟨"ClearLastNotifiedStatePerUser", true, .object, true⟩,   -- :640                                       → :610
+    ⟨"SetForceNextCheck", true, .object, true⟩,               -- :702                                       → :667
+    ⟨"SetForceNextNotification", true, .object, true⟩,        -- :764                                       → :729
+    ⟨"SetAcknowledgement", true, .object, true⟩,              -- :845 AcknowledgeProblem(…, origin)         → :799
+    ⟨"ClearAcknowledgement", true, .object, true⟩,            -- :908                                       → :873
+    ⟨"SendNotifications", true, .none, true⟩,                 -- :1142 OnNotificationsRequested(…, origin)  → :1086
+    ⟨"NotificationSentUser", true, .none, true⟩,              -- :1245                                      → :1177
+    ⟨"NotificationSentToAllUsers", true, .none, true⟩,        -- :1388                                      → :1291
+    ⟨"UpdateExecutions", true, .object, true⟩,                -- :1566 RelayMessage(origin, checkable, …) in the API handler itself
+    ⟨"SetRemovalInfo", true, .object, true⟩ ]                 -- :1620 comment, :1633 downtime              → :1590
+
+def findHandler (m : String) : Option Handler := handlers.find? (fun h => h.method == m)
+
+/-- the zone argument of the re-relay: the object's zone, or nothing when the handler names no security object -/
+def Handler.objZone (h : Handler) (objZone : Option Zone) : Option Zone :=
+  match h.sec with
+  | .object => objZone
+  | .none => none
+
+/-- the origin the re-relay runs with -/
+def Handler.origin (h : Handler) (T : Topo) (msg : Msg) : Origin :=
+  if h.passesOrigin then originOf T msg else Origin.loc
+
+/-- a node that processed the event `msg` (about an object whose zone attribute is `objZone`) relays it again -/
+def reRelay (T : Topo) (h : Handler) (msg : Msg) (objZone : Option Zone) : Result :=
+  if h.relays then relay T msg.to (h.origin T msg) (h.objZone objZone) true
+  else ⟨[], [], false, (h.origin T msg).fromZone⟩
+
+/-! ### The replay path: what `ApiListener::ReplayLog` puts on the wire (apilistener.cpp:1529-1549) -/
+
+/-- the `secobj` entry of a replay-log record at the time of the replay -/
+inductive RecObj
+  /-- the record names no security object (`PersistMessage` was called with `nullptr`, apilistener.cpp:1154) -/
+  | absent
+  /-- it names an object that no longer exists (`ConfigObject::GetObject` returns null, :1541-1544) -/
+  | deleted
+  /-- it names an object whose zone attribute is `objZone` -/
+  | present (objZone : Option Zone)
+  deriving Repr, DecidableEq, Inhabited
+
+/-- the record is sent to the connecting endpoint `target`: `target_zone->CanAccessObject(secobj)` (:1546) -/
+def replaySends (T : Topo) (self : Ep) (ro : RecObj) (target : Ep) : Bool :=
+  match ro with
+  | .absent => true
+  | .deleted => false
+  | .present oz => canAccess T (T.zoneOf target) (targetZone T self oz)
+
 end Icinga.C11
